@@ -54,6 +54,17 @@ def call(f):
         return ("err", e)
 '''
 
+EXIT_CLASS = '''\
+class _Exit:
+    def __init__(self, f):
+        self.f = f
+    def __enter__(self):
+        return self
+    def __exit__(self, *a):
+        self.f()
+        return False
+'''
+
 BIG_LIMIT = 100000
 DEEP_ARG = 40
 FALLBACK = -7
@@ -82,13 +93,40 @@ HANDLES = {"zde": {"zde"}, "boom": {"boom"}, "exc": {"zde", "none", "depth", "st
 
 
 class Dep:
-    __slots__ = ("d", "style", "handled")
+    __slots__ = ("d", "style", "handled", "inflight")
 
-    def __init__(self, d, style="plain", handled=None):
+    def __init__(self, d, style="plain", handled=None, inflight=None):
         self.d, self.style, self.handled = d, style, handled
+        self.inflight = inflight        # None | Inflight: another element is evaluated while the callee's failure propagates
 
     def key(self):
-        return (self.d, self.style, self.handled)
+        if self.inflight is None:
+            return (self.d, self.style, self.handled)
+        return (self.d, self.style, self.handled, self.inflight.key())
+
+
+class Inflight:
+    """The call is wrapped so that the formula evaluates a *side* element while the callee's exception is still
+    propagating, and then lets the same exception go on:
+
+        finally      try: CALL / finally: SIDE                      (SIDE also runs when CALL succeeds)
+        reraise      try: CALL / except H: SIDE; raise
+        reraise-as   try: CALL / except H as _e: SIDE; raise _e
+        with         with _Exit(lambda: SIDE): CALL                 (SIDE runs in __exit__, also when CALL succeeds)
+
+    side = index of an earlier node, or ("note", a) = the helper cells Main.note(a); hcls = handler class of the
+    except forms (the side is evaluated only if it catches the exception in flight)."""
+    __slots__ = ("form", "side", "style", "hcls")
+    FORMS = ("finally", "reraise", "reraise-as", "with")
+
+    def __init__(self, form, side, style="plain", hcls=None):
+        self.form, self.side, self.style, self.hcls = form, side, style, hcls
+
+    def key(self):
+        return (self.form, self.side, self.style, self.hcls)
+
+    def triggered_by(self, kind):
+        return self.form in ("finally", "with") or kind in HANDLES[self.hcls]
 
 
 class Fail:
@@ -206,6 +244,21 @@ class Spec:
             args = "()"
         return "%sc%d%s" % (pre, td.j, args)
 
+    def uses_inflight(self):
+        return any(dep.inflight is not None for nd in self.nodes for dep in nd.deps)
+
+    def side_expr(self, j, inf):
+        """Source of the side evaluation of an Inflight wrapper inside node j's formula."""
+        if isinstance(inf.side, int):
+            e = self.call_expr(j, Dep(inf.side))
+        else:
+            e = ("" if self.nodes[j].home == "Main" else "Main.") + "note(%d)" % inf.side[1]
+        return self._wrap_call(e, inf.style)
+
+    @staticmethod
+    def note_label(a):
+        return ("M.Main.note", (a,))
+
     def deep_expr(self, j):
         name = "deep" if self.deep_cached else "deepu"
         return ("" if self.nodes[j].home == "Main" else "Main.") + "%s(%d)" % (name, DEEP_ARG)
@@ -266,7 +319,27 @@ class Spec:
             elif op == "CALL":
                 dep = st["dep"]
                 e = self._wrap_call(self.call_expr(j, dep), dep.style)
-                if dep.handled:
+                if dep.inflight is not None:
+                    inf = dep.inflight
+                    se = self.side_expr(j, inf)
+                    if inf.form == "with":
+                        st["side_line"] = emit("    with _Exit(lambda: %s):" % se)
+                        st["line"] = emit("        acc += " + e)
+                    else:
+                        emit("    try:")
+                        st["line"] = emit("        acc += " + e)
+                        if inf.form == "finally":
+                            emit("    finally:")
+                            st["side_line"] = emit("        " + se)
+                        elif inf.form == "reraise":
+                            emit("    except %s:" % HANDLER_CLASS[inf.hcls])
+                            st["side_line"] = emit("        " + se)
+                            emit("        raise")
+                        else:
+                            emit("    except %s as _e:" % HANDLER_CLASS[inf.hcls])
+                            st["side_line"] = emit("        " + se)
+                            emit("        raise _e")
+                elif dep.handled:
                     emit("    try:")
                     st["line"] = emit("        acc += " + e)
                     emit("    except %s:" % HANDLER_CLASS[dep.handled])
@@ -429,6 +502,10 @@ def build(spec, rec):
     rec.do('Main.new_cells("deep", formula="def deep(x):\\n    return deep(x - 1) + 1 if x > 0 else 0")')
     rec.do('Main.new_cells("deepu", formula="def deepu(x):\\n    return deepu(x - 1) + 1 if x > 0 else 0")')
     rec.do("Main.deepu.is_cached = False")
+    if spec.uses_inflight():
+        rec.do('Main.new_cells("note", formula="lambda x: x")')
+        rec.do(EXIT_CLASS)
+        rec.do("m._Exit = _Exit")
     if spec.model_allow:
         rec.do("m.allow_none = True")
     for h, v in spec.space_allow.items():
@@ -480,12 +557,20 @@ def observe(spec, rec):
     return out, deep, (itm is not None)
 
 
+def observe_notes(spec, rec):
+    """Arguments for which the helper cells Main.note holds a value (models with Inflight wrappers only)."""
+    if not spec.uses_inflight():
+        return set()
+    return {k[0] for k in rec.ns["held"](rec.ns["Main"].cells["note"])}
+
+
 # ====================================================================== the independent evaluator
 
 class SimExc(Exception):
     def __init__(self, kind, origin):
         self.kind, self.origin = kind, origin
         self.chain = None            # [(label, line or None)] outermost first
+        self.boom_index = None
 
 
 class Sim:
@@ -500,6 +585,9 @@ class Sim:
         self.stack = []              # [[label, line]]
         self.completed = []          # node indices completed during this run, in order
         self.handled_unwinds = []    # (labels unwound by an exception that a formula handled, open-ended?)
+        self.boom_raised = 0         # exceptions raised through the _boom() helper so far (they are listed in RAISED)
+        self.note_held = set()       # arguments of Main.note held before the call (Inflight wrappers)
+        self.inflight_evals = []     # (form, side was really evaluated?, side completed normally?) while an exception propagated
 
     def top(self, j):
         try:
@@ -510,6 +598,10 @@ class Sim:
     # -- helpers
     def _raise(self, kind, origin):
         e = SimExc(kind, origin)
+        nd = self.spec.nodes[origin]
+        if kind == "boom" and (nd.lam or nd.fail.site in ("comp", "gen", "helper")):
+            e.boom_index = self.boom_raised       # raised through _boom(): its position in RAISED, counted from the call
+            self.boom_raised += 1
         e.chain = [(lab, ln) for lab, ln in self.stack]
         raise e
 
@@ -532,6 +624,28 @@ class Sim:
             self.deep_held |= set(range(DEEP_ARG + 1))
         return DEEP_ARG
 
+    def _side(self, inf, caller, in_flight):
+        """The side evaluation of an Inflight wrapper in `caller`'s formula (value discarded)."""
+        sp = self.spec
+        if isinstance(inf.side, int):
+            nd = sp.nodes[inf.side]
+            evaluated = not (nd.cached and (inf.side in self.held or inf.side in sp.inputs))
+        else:
+            evaluated = inf.side[1] not in self.note_held
+        try:
+            if isinstance(inf.side, int):
+                self._call(inf.side, caller)
+            elif evaluated:
+                self.stack.append([sp.note_label(inf.side[1]), 1])
+                self.stack.pop()
+                self.note_held.add(inf.side[1])
+        except SimExc:
+            if in_flight:
+                self.inflight_evals.append((inf.form, evaluated, False))
+            raise
+        if in_flight:
+            self.inflight_evals.append((inf.form, evaluated, True))
+
     def _call(self, j, caller):
         sp = self.spec
         nd = sp.nodes[j]
@@ -553,9 +667,27 @@ class Sim:
                     acc = sp.k(j)
                 elif op == "CALL":
                     dep = st["dep"]
+                    inf = dep.inflight
                     try:
                         acc += self._call(dep.d, j)
                     except SimExc as e:
+                        if inf is not None and inf.triggered_by(e.kind):
+                            # the formula evaluates the side element while e propagates, then lets e go on
+                            fr[1] = st["side_line"]
+                            try:
+                                self._side(inf, j, True)
+                            except SimExc:
+                                # the side failed: its exception replaces e, whose unwound elements are history
+                                self.handled_unwinds.append(([lab for lab, _ in e.chain[len(self.stack):]],
+                                                             getattr(e, "open_ended", None) is not None))
+                                raise
+                            fr[1] = st["line"]
+                            if inf.form == "reraise-as":
+                                # `raise _e` adds a second traceback entry for this frame: which of the two lines
+                                # is "where the error occurred" is not said by the statement -> no line expected
+                                i = len(self.stack) - 1
+                                e.chain[i] = (e.chain[i][0], None)
+                            raise e
                         if dep.handled and e.kind in HANDLES[dep.handled]:
                             # the formula handles it: the elements below this frame were unwound
                             self.handled_unwinds.append(([lab for lab, _ in e.chain[len(self.stack):]],
@@ -563,6 +695,10 @@ class Sim:
                             acc += FALLBACK
                         else:
                             raise
+                    else:
+                        if inf is not None and inf.form in ("finally", "with"):
+                            fr[1] = st["side_line"]
+                            self._side(inf, j, False)
                 elif op == "FAIL":
                     f = st["fail"]
                     if f.cond and not sp.flags[j]:
@@ -677,3 +813,43 @@ def make_handled_spec(n, deps, p, fkind, rnd, extra=False, escape=True):
     spec = Spec(nodes, deep_cached=rnd.random() < 0.7, pad=rnd.random() < 0.3, lam_multi=rnd.random() < 0.5)
     errmode = rnd.choice(["formula-error"] * 4 + ["original", "handled"])
     return spec, small, errmode, ph
+
+
+# ====================================================================== elements evaluated while a failure propagates
+
+def add_inflight(spec, rnd, form=None, placement="all"):
+    """Wrap calls of `spec` in Inflight constructs (in place; -> number of wrapped calls).
+
+    Every call that is not already wrapped in a handler, in a formula that can hold statements (not a lambda), is
+    wrapped (placement 'all') or wrapped with probability 0.6 ('some'); form = one of Inflight.FORMS or None (drawn
+    per call).  The side element is an earlier node other than the callee (any kind: it may be held already, be
+    uncached, fail itself, handle failures itself) or - always when there is no such node, else half of the time -
+    the helper cells Main.note with an argument used nowhere else (so it holds no value before the first evaluation
+    after a clear_all)."""
+    fails = {nd.fail.kind for nd in spec.nodes if nd.fail is not None}
+    count = 0
+    for nd in spec.nodes:
+        if nd.lam:
+            continue
+        for i, dep in enumerate(nd.deps):
+            if dep.handled or dep.inflight is not None:
+                continue
+            if placement != "all" and rnd.random() >= 0.6:
+                continue
+            f = form or rnd.choice(Inflight.FORMS)
+            others = [s for s in range(nd.j) if s != dep.d]
+            if others and rnd.random() < 0.5:
+                side = rnd.choice(others)
+            else:
+                side = ("note", 10 * nd.j + i)
+            hcls = None
+            if f in ("reraise", "reraise-as"):
+                kinds = sorted(fails) or ["zde"]
+                fk = rnd.choice(kinds)
+                hcls = rnd.choice(HANDLER_FOR[fk]) if rnd.random() < 0.85 else rnd.choice(NONHANDLER_FOR[fk])
+            if dep.style in ("lam", "multi"):
+                dep.style = "plain"
+            dep.inflight = Inflight(f, side, rnd.choice(["plain", "plain", "comp", "lam"]), hcls)
+            count += 1
+    spec._render.clear()
+    return count
